@@ -98,11 +98,9 @@ Theorem multiclass_confusion_matrix_eq_textbook : forall c b, cm_valid c b = tru
 Proof. exact mccm_algo_eq_spec. Qed.
 Theorem binary_confusion_matrix_eq_textbook : forall c b, bin_valid b = true -> fn_of bincm_spec c b = bincm_textbook c b.
 Proof. exact bincm_algo_eq_spec. Qed.
-(* multilabel / top-k multilabel: per sample, the tensor expressions are the documented set relations
-   (exact match P = T, overlap, contain T <= P, belong P <= T, hamming = number of agreeing labels).
-   PARTIAL: the lifting of these per-sample facts through the sum over samples and the final division is
-   not proved in Coq; it is covered by the exhaustive algo-vs-spec comparison of the check. *)
-Theorem multilabel_criteria_are_set_relations_partial : forall r, ok01 r ->
+(* multilabel / top-k multilabel: per sample, the tensor expressions of _multilabel_update are the documented
+   set relations (exact match P = T, overlap, contain T <= P, belong P <= T, hamming = number of agreeing labels) *)
+Theorem multilabel_criteria_are_set_relations : forall r, ok01 r ->
   forallb (fun py => fst py =? snd py) r = ml_sample_ok ExactMatch (map to_bits r) /\
   existsb (fun py => (fst py =? snd py) && (fst py =? 1)) r || forallb (fun py => (fst py =? 0) && (snd py =? 0)) r
     = ml_sample_ok Overlap (map to_bits r) /\
@@ -110,6 +108,12 @@ Theorem multilabel_criteria_are_set_relations_partial : forall r, ok01 r ->
   forallb (fun py => fst py - snd py <=? 0) r = ml_sample_ok Belong (map to_bits r) /\
   sumZ (map (fun py => b2z (fst py =? snd py)) r) = cnt (fun pt => Bool.eqb (fst pt) (snd pt)) (map to_bits r).
 Proof. exact ml_row_criteria. Qed.
+(* ... and on a batch: every criterion, every threshold *)
+Theorem multilabel_accuracy_eq_textbook : forall c b, ml_shape_ok b = true -> fn_of mlacc_spec c b = mlacc_textbook c b.
+Proof. exact mlacc_algo_eq_spec. Qed.
+(* top-k multilabel: for EVERY admissible top-k index selection (ties at the k-th score included) *)
+Theorem topk_multilabel_accuracy_eq_textbook : forall c b, tk_valid c b = true -> fn_of tkacc_spec c b = tkacc_textbook c b.
+Proof. exact tkacc_algo_eq_spec. Qed.
 Theorem multilabel_overlap_summands_exclusive : forall r,
   existsb (fun py : Z * Z => (fst py =? snd py) && (fst py =? 1)) r && forallb (fun py => (fst py =? 0) && (snd py =? 0)) r = false.
 Proof. exact ml_overlap_exclusive. Qed.
@@ -211,5 +215,7 @@ Print Assumptions binary_f1_eq_textbook.
 Print Assumptions confusion_matrix_normalisations_eq_textbook.
 Print Assumptions multiclass_confusion_matrix_eq_textbook.
 Print Assumptions binary_confusion_matrix_eq_textbook.
-Print Assumptions multilabel_criteria_are_set_relations_partial.
+Print Assumptions multilabel_criteria_are_set_relations.
+Print Assumptions multilabel_accuracy_eq_textbook.
+Print Assumptions topk_multilabel_accuracy_eq_textbook.
 Print Assumptions multilabel_overlap_summands_exclusive.
